@@ -38,12 +38,19 @@ def make_cases(rng, tier, diff_here):
         [{"kind": "full", "rules": [R("ra", 9), R("rb", 5), R("rc", 1)]}, {"kind": "incr", "rules": [R("rd", 7), R("rc", 20, "fail")]}, {"kind": "remove", "names": ["rb"]}],
         [{"kind": "full", "rules": [R("ra", 3), R("rb", 3), R("rc", 3)]}, {"kind": "incr", "rules": [R("rb", 3, "fail")]}, {"kind": "incr", "rules": [R("re", 3), R("ra", -1)]}],
     ]
+    MIN, MAX = -2 ** 63, 2 ** 63 - 1        # saliences whose differences overflow int64
+    hists += [
+        [{"kind": "full", "rules": [R("ra", 9), R("rb", 0)]}, {"kind": "incr", "rules": [R("rc", MIN)]}],
+        [{"kind": "full", "rules": [R("ra", -5), R("rb", -9)]}, {"kind": "incr", "rules": [R("rc", MAX)]}],
+        [{"kind": "full", "rules": [R("ra", MIN), R("rb", MAX), R("rc", 0)]}, {"kind": "incr", "rules": [R("rd", 1), R("ra", MAX)]}, {"kind": "incr", "rules": [R("rb", MIN, "fail")]}],
+    ]
+    hist_pool = sal_pool + [MIN, MAX]
     for _ in range(10 if tier == "quick" else 300):
-        h = [{"kind": "full", "rules": [R(n, rng.choice(sal_pool)) for n in rng.sample(NAMES[:6], rng.randint(1, 5))]}]
+        h = [{"kind": "full", "rules": [R(n, rng.choice(hist_pool)) for n in rng.sample(NAMES[:6], rng.randint(1, 5))]}]
         for _ in range(rng.randint(1, 4)):
             k = rng.choice(["incr", "incr", "remove"])
             if k == "incr":
-                h.append({"kind": "incr", "rules": [R(n, rng.choice(sal_pool), rng.choice(["ret", "plain", "fail"])) for n in rng.sample(NAMES[:7], rng.randint(1, 3))]})
+                h.append({"kind": "incr", "rules": [R(n, rng.choice(hist_pool), rng.choice(["ret", "plain", "fail"])) for n in rng.sample(NAMES[:7], rng.randint(1, 3))]})
             else:
                 h.append({"kind": "remove", "names": rng.sample(NAMES[:7] + ["ghost"], rng.randint(1, 3))})
         hists.append(h)
@@ -60,7 +67,7 @@ def make_cases(rng, tier, diff_here):
 
 
 RULE = ("systematic: rule sets of size 1-4 (thorough 1-5) over saliences {-2,0,0,3,7} (ties, negatives) x EVERY failing subset x both flags, through Execute and the two sorted selected variants "
-        "(names permuted); rule sets installed through 15 (thorough 305) histories of full / incremental (moved and tied saliences, several rules per text) / removal (incl. absent names) operations, whose installed order must be the denoted set in non-increasing current salience; random: 200 (thorough 5000) calls with up to 7 (10) rules.")
+        "(names permuted); rule sets installed through 18 (thorough 308) histories of full / incremental (moved and tied saliences, the int64 extremes, several rules per text) / removal (incl. absent names) operations, whose installed order must be the denoted set in non-increasing current salience; random: 200 (thorough 5000) calls with up to 7 (10) rules.")
 
 
 def main(run):
